@@ -33,7 +33,9 @@ import (
 func (s *Server) Set(ctx context.Context, req *gnmi.SetRequest) (*gnmi.SetResponse, error) {
 	log.Infof("Received gNMI Set Request %+v", req)
 	var userName string
-	if md := metautils.ExtractIncoming(ctx); md != nil {
+	// ExtractIncoming never returns nil: only requests carrying identity metadata are subject to the group check
+	if md := metautils.ExtractIncoming(ctx); md != nil &&
+		(md.Get("name") != "" || md.Get("preferred_username") != "" || md.Get("groups") != "") {
 		log.Infof("gNMI Set() called by '%s (%s) (%s)'. Groups [%v]",
 			md.Get("preferred_username"), md.Get("name"), md.Get("email"), md.Get("groups"))
 		userName = md.Get("preferred_username")
